@@ -73,7 +73,7 @@ def subterms(fs):
 def index_terms(fs):
     out = {}
     for e in subterms(fs):
-        if z3.is_app(e) and e.decl().kind() == z3.Z3_OP_SELECT:
+        if z3.is_app(e) and e.decl().kind() in (z3.Z3_OP_SELECT, z3.Z3_OP_STORE):
             idx = e.arg(1)
             if not has_bound_var(idx):
                 out[idx.get_id()] = idx
@@ -115,6 +115,37 @@ def free_consts(e, acc=None):
     return acc
 
 
+def _int_only_formula(h):
+    for s_ in subterms([h]):
+        k = s_.sort().kind()
+        if k == z3.Z3_REAL_SORT or k == z3.Z3_ARRAY_SORT: return False
+        if z3.is_quantifier(s_): return False
+        if z3.is_app(s_) and s_.decl().kind() == z3.Z3_OP_UNINTERPRETED and s_.num_args() > 0: return False
+    return True
+
+
+def real_syms(e):
+    out = set()
+    for s_ in subterms([e]):
+        if z3.is_app(s_) and s_.num_args() == 0 and s_.decl().kind() == z3.Z3_OP_UNINTERPRETED and s_.sort().kind() in (z3.Z3_REAL_SORT, z3.Z3_BOOL_SORT):
+            out.add(s_.get_id())
+    return out
+
+
+def real_relevant(hyps, goal, rounds=8):
+    """keep hypotheses connected to the goal through Real/Bool symbols (integer index symbols do not connect)"""
+    syms = real_syms(goal)
+    hs = [(h, real_syms(h)) for h in hyps]
+    keep = [False] * len(hs)
+    for _ in range(rounds):
+        changed = False
+        for i, (h, sy) in enumerate(hs):
+            if not keep[i] and (sy & syms):
+                keep[i] = True; syms |= sy; changed = True
+        if not changed: break
+    return [h for (h, _), k in zip(hs, keep) if k]
+
+
 def relevant(hyps, goal, rounds=6):
     """cone of influence: keep hypotheses that (transitively) share symbols with the goal."""
     syms = set(free_consts(goal).keys())
@@ -131,8 +162,34 @@ def relevant(hyps, goal, rounds=6):
 
 # ---------------------------------------------------------------- array / UF elimination
 
+class IntOracle:
+    """decides (dis)equalities between index terms from the integer-only hypotheses"""
+    def __init__(self, hyps):
+        self.s = z3.Solver(); self.s.set('timeout', 200)
+        for h in hyps: self.s.add(h)
+        self.cache = {}
+
+    def rel(self, a, b):
+        """'eq' | 'ne' | None"""
+        d = z3.simplify(a - b)
+        if z3.is_int_value(d): return 'eq' if d.as_long() == 0 else 'ne'
+        key = d.get_id()
+        if key in self.cache: return self.cache[key]
+        r = None
+        self.s.push(); self.s.add(a != b)
+        if self.s.check() == z3.unsat: r = 'eq'
+        self.s.pop()
+        if r is None:
+            self.s.push(); self.s.add(a == b)
+            if self.s.check() == z3.unsat: r = 'ne'
+            self.s.pop()
+        self.cache[key] = r
+        return r
+
+
 class Elim:
-    def __init__(self):
+    def __init__(self, oracle=None):
+        self.oracle = oracle
         self.memo = {}
         self.reads = {}     # head name -> list of (index tuple, fresh const)
         self.n = 0
@@ -154,6 +211,10 @@ class Elim:
             if z3.is_int_value(d):
                 if d.as_long() == 0: return self.sel(v, idxs[1:]) if idxs[1:] else self.rw(v)
                 return self.sel(base, idxs)
+            if self.oracle is not None:
+                rr = self.oracle.rel(i, j)
+                if rr == 'eq': return self.sel(v, idxs[1:]) if idxs[1:] else self.rw(v)
+                if rr == 'ne': return self.sel(base, idxs)
             hit = self.sel(v, idxs[1:]) if idxs[1:] else self.rw(v)
             return z3.If(i == j, hit, self.sel(base, idxs))
         if k == z3.Z3_OP_ITE:
@@ -177,6 +238,9 @@ class Elim:
         key = tuple(x.get_id() for x in idxs)
         for k2, ix, c in lst:
             if k2 == key: return c
+        if self.oracle is not None and all(x.sort().kind() == z3.Z3_INT_SORT for x in idxs):
+            for k2, ix, c in lst:
+                if all(self.oracle.rel(a, b) == 'eq' for a, b in zip(ix, idxs)): return c
         c = self.fresh(sort, head.split('!')[0])
         lst.append((key, idxs, c))
         return c
@@ -217,6 +281,10 @@ class Elim:
                 conds = []
                 distinct = False
                 for a, b in zip(i1, i2):
+                    if self.oracle is not None and a.sort().kind() == z3.Z3_INT_SORT:
+                        rr = self.oracle.rel(a, b)
+                        if rr == 'ne': distinct = True; break
+                        if rr == 'eq': continue
                     if a.sort().kind() == z3.Z3_INT_SORT or a.sort().kind() == z3.Z3_REAL_SORT:
                         d = z3.simplify(a - b)
                         if z3.is_int_value(d) or z3.is_rational_value(d):
@@ -301,6 +369,84 @@ class Relax:
         return e
 
 
+# ---------------------------------------------------------------- lazy combination: nlsat for reals, LIA for index atoms
+
+class IntAbs:
+    """abstract atoms over Int terms by Boolean constants"""
+    def __init__(self):
+        self.memo = {}; self.atoms = {}; self.ok = True; self.n = 0
+
+    def ab(self, e):
+        i = e.get_id()
+        if i in self.memo: return self.memo[i]
+        r = self._ab(e); self.memo[i] = r
+        return r
+
+    def _ab(self, e):
+        if not z3.is_app(e): self.ok = False; return e
+        k = e.decl().kind()
+        ch = e.children()
+        if e.sort().kind() == z3.Z3_BOOL_SORT and k in (z3.Z3_OP_LT, z3.Z3_OP_GT, z3.Z3_OP_LE, z3.Z3_OP_GE, z3.Z3_OP_EQ, z3.Z3_OP_DISTINCT) \
+                and ch and ch[0].sort().kind() == z3.Z3_INT_SORT:
+            for c in ch:
+                for sub in subterms([c]):
+                    if sub.sort().kind() == z3.Z3_REAL_SORT: self.ok = False; return e
+            self.n += 1
+            b = z3.Bool('ia!%d' % self.n)
+            self.atoms[b.get_id()] = (b, e)
+            return b
+        if e.sort().kind() == z3.Z3_INT_SORT:
+            self.ok = False; return e
+        if k == z3.Z3_OP_UNINTERPRETED and e.sort().kind() == z3.Z3_BOOL_SORT and not ch:
+            return e
+        if not ch: return e
+        nc = [self.ab(c) for c in ch]
+        if not self.ok: return e
+        if all(a.eq(b) for a, b in zip(nc, ch)): return e
+        return e.decl()(*nc)
+
+
+def lazy_combination(fs, budget):
+    """fs: quantifier-free, array-free formulas over Int and Real.  returns 'unsat' | 'sat' | 'unknown'"""
+    ia = IntAbs()
+    afs = [ia.ab(f) for f in fs]
+    if not ia.ok: return 'n/a', 0
+    t0 = time.time()
+    sr = z3.Tactic('qfnra-nlsat').solver() if any(c.sort().kind() == z3.Z3_REAL_SORT for f in afs for c in subterms([f])) else z3.Solver()
+    for f in afs: sr.add(f)
+    atoms = list(ia.atoms.values())
+    it = 0
+    while True:
+        it += 1
+        left = budget - (time.time() - t0)
+        if left <= 0 or it > 400: return 'unknown', it
+        r, _ = _check(sr, left * 1000)
+        if r == 'unsat': return 'unsat', it
+        if r != 'sat': return 'unknown', it
+        m = sr.model()
+        lits = []
+        for b, a in atoms:
+            v = m.eval(b, model_completion=False)
+            if z3.is_true(v): lits.append((b, a, True))
+            elif z3.is_false(v): lits.append((b, a, False))
+        si = z3.Solver(); si.set('timeout', 5000)
+        track = {}
+        for n_, (b, a, val) in enumerate(lits):
+            p = z3.Bool('tr!%d' % n_)
+            track[p.get_id()] = (b, val)
+            si.add(z3.Implies(p, a if val else z3.Not(a)))
+        r2 = si.check(*[z3.Bool('tr!%d' % n_) for n_ in range(len(lits))])
+        if r2 == z3.sat: return 'sat', it
+        if r2 != z3.unsat: return 'unknown', it
+        core = si.unsat_core()
+        clause = []
+        for p in core:
+            b, val = track[p.get_id()]
+            clause.append(z3.Not(b) if val else b)
+        if not clause: return 'unsat', it
+        sr.add(z3.Or(*clause))
+
+
 # ---------------------------------------------------------------- the procedure
 
 def _check(solver, ms):
@@ -313,12 +459,12 @@ def _check(solver, ms):
     return str(r), time.time() - t0
 
 
-def instantiate(quants, plain, goal, extra_terms=(), rounds=2, cap=400):
+def instantiate(quants, plain, goal, extra_terms=(), rounds=2, cap=400, goal_only=False):
     insts = []
     done = set()
-    base = list(plain) + [goal]
+    base = ([] if goal_only else list(plain)) + [goal]
     for rnd in range(rounds):
-        terms = index_terms(base + insts) + list(extra_terms)
+        terms = index_terms(base + ([] if goal_only else insts)) + list(extra_terms)
         tset = {}
         for t in terms:
             tset[t.get_id()] = t
@@ -372,40 +518,52 @@ def discharge(hyps, goal, budget=20.0, skolems=(), want_model=True):
         if r == 'unsat': return done('proved', 'z3-smt')
         if r == 'sat' and not quants:
             return done('failed', 'z3-smt', model_summary(s.model()) if want_model else None)
-    # Tier B: eliminate quantifiers, arrays, UFs
-    insts = instantiate(quants, plain, goal, extra_terms=skolems)
-    allh = relevant(plain + insts, goal)
-    el = Elim()
-    fs = [el.rw(f) for f in allh + [ng]]
-    if el.ok:
-        fs += el.congruence()
-        fs = [z3.simplify(f) for f in fs]
-        # B1: relaxed to reals, nlsat
-        rl = Relax()
-        rfs = [rl.rx(f) for f in fs]
-        verdict_b1 = None
-        if rl.ok:
-            s = z3.Tactic('qfnra-nlsat').solver()
-            for f in rfs: s.add(f)
-            r, dt = _check(s, budget * 1000)
-            log.append(('B1:nlsat-relaxed', r, round(dt, 3)))
-            if r == 'unsat': return done('proved', 'z3-nlsat')
-            verdict_b1 = r
-            has_int = any(c.sort().kind() == z3.Z3_INT_SORT for f in fs for c in free_consts(f).values() if isinstance(c, z3.ExprRef))
-            if r == 'sat' and not has_int:
-                return done('failed', 'z3-nlsat', model_summary(s.model()) if want_model else None)
-        # B2: mixed formula, default solver
-        s = z3.Solver()
-        for f in fs: s.add(f)
-        r, dt = _check(s, budget * 1000)
-        log.append(('B2:z3-smt-qf', r, round(dt, 3)))
-        if r == 'unsat': return done('proved', 'z3-smt-qf')
-        if r == 'sat':
-            return done('failed', 'z3-smt-qf', model_summary(s.model()) if want_model else None)
-        if verdict_b1 == 'sat':
-            return done('failed', 'z3-nlsat-relaxed', None)
-    else:
-        log.append(('B:elim', 'not-applicable', 0))
+    for level in ((0, 1) if quants else (1,)):
+        insts = instantiate(quants, plain, goal, extra_terms=skolems, goal_only=(level == 0), rounds=(1 if level == 0 else 2))
+        last = (level == 1)
+        # Tier B: eliminate quantifiers, arrays, UFs
+        allh = plain + insts
+        int_h = [h for h in allh if _int_only_formula(h)]
+        oracle = IntOracle(int_h)
+        el = Elim(oracle)
+        rest = [el.rw(h) for h in allh if not _int_only_formula(h)]
+        gq = el.rw(ng)
+        if el.ok:
+            cong = el.congruence()
+            kept = real_relevant(rest + cong, gq)
+            fs = [z3.simplify(f) for f in kept + int_h + [gq]]
+            fs = [f for f in fs if not z3.is_true(f)]
+            log.append(('B:size', len(fs), len(insts)))
+            # B1: relaxed to reals, nlsat
+            rl = Relax()
+            rfs = [rl.rx(f) for f in fs]
+            verdict_b1 = None
+            if rl.ok:
+                s = z3.Tactic('qfnra-nlsat').solver()
+                for f in rfs: s.add(f)
+                r, dt = _check(s, budget * 1000)
+                log.append(('B1:nlsat-relaxed', r, round(dt, 3)))
+                if r == 'unsat': return done('proved', 'z3-nlsat')
+                verdict_b1 = r
+                has_int = any(c.sort().kind() == z3.Z3_INT_SORT for f in fs for c in free_consts(f).values() if isinstance(c, z3.ExprRef))
+                if r == 'sat' and not has_int and last:
+                    return done('failed', 'z3-nlsat', model_summary(s.model()) if want_model else None)
+            # B1b: exact combination (nlsat for the reals, LIA for the index atoms)
+            if verdict_b1 != 'unsat':
+                r, its = lazy_combination(fs, budget if last else budget / 2)
+                log.append(('B1b:nlsat+lia', r, its))
+                if r == 'unsat': return done('proved', 'z3-nlsat+lia')
+                if r == 'sat' and last: return done('failed', 'z3-nlsat+lia', None)
+            # B2: mixed formula, default solver
+            s = z3.Solver()
+            for f in fs: s.add(f)
+            r, dt = _check(s, (budget if last else budget / 4) * 1000)
+            log.append(('B2:z3-smt-qf', r, round(dt, 3)))
+            if r == 'unsat': return done('proved', 'z3-smt-qf')
+            if r == 'sat' and last:
+                return done('failed', 'z3-smt-qf', model_summary(s.model()) if want_model else None)
+        else:
+            log.append(('B:elim', 'not-applicable', 0))
     # Tier C: everything to the default solver with instances added
     s = z3.Solver()
     for h in plain: s.add(h)
